@@ -151,6 +151,7 @@ type GhostField struct {
 }
 
 type SpecFile struct {
+	Immutable   []string // "T.f" fields never written after construction
 	GhostFields []*GhostField
 	Path      string
 	Pkg       string
@@ -582,7 +583,7 @@ func (p *parser) parsePrimary() Expr {
 var clauseKeywords = map[string]bool{
 	"func": true, "interface": true, "requires": true, "ensures": true, "modifies": true,
 	"let": true, "loop": true, "invariant": true, "ghost": true, "axiom": true, "lemma": true,
-	"table": true, "import": true, "flag": true, "assert": true, "external": true, "loopmodifies": true, "when": true, "ghostfield": true,
+	"table": true, "import": true, "flag": true, "assert": true, "external": true, "loopmodifies": true, "when": true, "ghostfield": true, "immutable": true,
 }
 
 type rawClause struct {
@@ -802,6 +803,11 @@ func readSpecFile(path string, pkgPath string) (*SpecFile, error) {
 					g.Result = rest
 				}
 				sf.Ghosts = append(sf.Ghosts, g)
+				cur, curLoop = nil, nil
+			case "immutable":
+				for _, f := range splitTop(rc.text) {
+					sf.Immutable = append(sf.Immutable, strings.TrimSpace(f))
+				}
 				cur, curLoop = nil, nil
 			case "ghostfield":
 				f := strings.Fields(rc.text)
